@@ -503,8 +503,8 @@ def _fails(pid, stream, case, against):
     if 'PANIC' in a or a.startswith('CRASH') or a == 'TIMEOUT':
         return None          # shrinking must not leave the space of valid programs
     if against == 'judge':
-        v = stream.py_judge(case, a)
-        return None if v == 'ok' else (a, v)
+        v = stream.py_judge(case, impl[0])        # the judge sees the raw output, as in the main phase
+        return None if v == 'ok' else (impl[0], v)
     mode = stream.mode if against == 'model' else stream.spec_mode
     if mode is None:
         return None
